@@ -13,8 +13,14 @@ use vcore::findings::SigBag;
 
 const LIMIT: usize = 2;
 
+const SHAPE_LIMIT: usize = 3;
+
 fn cfg(persistent: Option<String>) -> DriverCfg {
-    DriverCfg { dim: 2, metric: "euclidean".into(), auth: true, data_dir: persistent, hnsw_capacity: 64, snapshot_interval: 3, tenants: vec![("tenant_q".into(), 7, LIMIT)] }
+    cfg_l(persistent, LIMIT)
+}
+
+fn cfg_l(persistent: Option<String>, limit: usize) -> DriverCfg {
+    DriverCfg { dim: 2, metric: "euclidean".into(), auth: true, data_dir: persistent, hnsw_capacity: 64, snapshot_interval: 3, tenants: vec![("tenant_q".into(), 7, limit)] }
 }
 
 fn it(id: u64, v: [f32; 2]) -> Item {
@@ -40,6 +46,44 @@ pub fn alphabet() -> Vec<Rpc> {
         Rpc::Flush { t: 0 },
         Rpc::Restart,
     ]
+}
+
+/// Request-shape section: every id list of length <= 3 over {1,2,3,9} (9 is never live) — so every
+/// pattern of adjacent / non-adjacent repeats, present / absent ids — as BatchDelete(ids), BulkInsert
+/// and BulkLoadHnsw, from every reachable population of <= LIMIT documents, followed by a refill
+/// (Insert 1,2,3,4) that probes the limit with whatever counter the list RPC left behind.
+pub fn shape_sequences() -> Vec<Vec<Rpc>> {
+    let ids = [1u64, 2, 3, 9];
+    let mut lists: Vec<Vec<u64>> = Vec::new();
+    for a in ids {
+        lists.push(vec![a]);
+        for b in ids {
+            lists.push(vec![a, b]);
+            for c in ids {
+                lists.push(vec![a, b, c]);
+            }
+        }
+    }
+    let pops: Vec<Vec<u64>> = vec![vec![], vec![1], vec![2], vec![3], vec![1, 2], vec![1, 3], vec![2, 3], vec![1, 2, 3]];
+    let mut out = Vec::new();
+    for pop in &pops {
+        for l in &lists {
+            for kind in 0..3 {
+                let mut seq: Vec<Rpc> = pop.iter().map(|&i| Rpc::Insert { t: 0, item: it(i, [i as f32, 0.5]) }).collect();
+                let items: Vec<Item> = l.iter().enumerate().map(|(j, &i)| it(i, [i as f32 + 10.0, j as f32])).collect();
+                seq.push(match kind {
+                    0 => Rpc::BatchDeleteIds { t: 0, ids: l.clone(), ns: "".into() },
+                    1 => Rpc::BulkInsert { t: 0, items },
+                    _ => Rpc::BulkLoad { t: 0, items },
+                });
+                for i in [1u64, 2, 3, 4] {
+                    seq.push(Rpc::Insert { t: 0, item: it(i, [i as f32, 7.0]) });
+                }
+                out.push(seq);
+            }
+        }
+    }
+    out
 }
 
 #[derive(Default)]
@@ -71,17 +115,21 @@ fn kind(r: &Rpc) -> &'static str {
 }
 
 pub fn check_sequence(rt: &tokio::runtime::Runtime, seq: &[Rpc], scratch: &vcore::Scratch, st: &mut Stats) {
+    check_sequence_l(rt, seq, scratch, st, LIMIT)
+}
+
+pub fn check_sequence_l(rt: &tokio::runtime::Runtime, seq: &[Rpc], scratch: &vcore::Scratch, st: &mut Stats, limit: usize) {
     st.sequences += 1;
     let dir = scratch.path.join("d");
     let _ = std::fs::remove_dir_all(&dir);
     let needs_restart = seq.iter().any(|r| matches!(r, Rpc::Restart));
-    let c = cfg(if needs_restart { Some(dir.to_string_lossy().to_string()) } else { None });
+    let c = cfg_l(if needs_restart { Some(dir.to_string_lossy().to_string()) } else { None }, limit);
     let mut srv = build(&c);
-    let ctx = |detail: String| json!({"engine":"srvmc","check":"C14","sequence":seq,"limit":LIMIT,"detail":detail});
+    let ctx = |detail: String| json!({"engine":"srvmc","check":"C14","sequence":seq,"limit":limit,"detail":detail});
     for (i, r) in seq.iter().enumerate() {
         st.steps += 1;
         let live_before = live_docs_for_tenant(&srv, 7);
-        if live_before == LIMIT {
+        if live_before == limit {
             st.at_limit_steps += 1;
         }
         let resp = if matches!(r, Rpc::Restart) {
@@ -111,8 +159,8 @@ pub fn check_sequence(rt: &tokio::runtime::Runtime, seq: &[Rpc], scratch: &vcore
             st.viol.push((format!("C14|sequential|{dir_}|after={}", kind(r)), ctx(format!("step {i} {}: quota counter {count}, live documents {live}; response {resp}", r.short()))));
             return;
         }
-        if live > LIMIT {
-            st.viol.push((format!("C14|sequential|more-live-documents-than-limit|after={}", kind(r)), ctx(format!("step {i}: {live} live documents, limit {LIMIT}"))));
+        if live > limit {
+            st.viol.push((format!("C14|sequential|more-live-documents-than-limit|after={}", kind(r)), ctx(format!("step {i}: {live} live documents, limit {limit}"))));
             return;
         }
         // admission at the boundary for single valid inserts of a new id
@@ -126,8 +174,8 @@ pub fn check_sequence(rt: &tokio::runtime::Runtime, seq: &[Rpc], scratch: &vcore
                 let refused = resp.get("status").and_then(|x| x.as_str()) == Some("ResourceExhausted");
                 if refused {
                     st.refused_at_limit += 1;
-                    if live_before < LIMIT {
-                        st.viol.push(("C14|sequential|refused-below-limit".into(), ctx(format!("step {i} {}: refused although only {live_before} of {LIMIT} live", r.short()))));
+                    if live_before < limit {
+                        st.viol.push(("C14|sequential|refused-below-limit".into(), ctx(format!("step {i} {}: refused although only {live_before} of {limit} live", r.short()))));
                         return;
                     }
                 } else if resp.get("ok").and_then(|x| x.as_bool()) != Some(true) {
@@ -235,6 +283,14 @@ pub fn worker(wi: usize, wn: usize, tier: &str) {
             }
         }
     }
+    let mut shapes = 0u64;
+    for (i, seq) in shape_sequences().iter().enumerate() {
+        if i % wn != wi {
+            continue;
+        }
+        shapes += 1;
+        check_sequence_l(&rt, seq, &scratch, &mut st, SHAPE_LIMIT);
+    }
     drop(rt);
     for (i, (setup, conc)) in conc_programs().iter().enumerate() {
         if i % wn != wi {
@@ -243,7 +299,7 @@ pub fn worker(wi: usize, wn: usize, tier: &str) {
         check_conc(setup, conc, bound, &mut st);
     }
     vcore::par::worker_emit(&json!({"sequences":st.sequences,"steps":st.steps,"at_limit":st.at_limit_steps,"refused":st.refused_at_limit,"states":st.states.iter().collect::<Vec<_>>(),
-        "conc_programs":st.conc_programs,"conc_executions":st.conc_executions,"conc_points":st.conc_points,"violations":st.viol.to_json()}));
+        "shapes":shapes,"conc_programs":st.conc_programs,"conc_executions":st.conc_executions,"conc_points":st.conc_points,"violations":st.viol.to_json()}));
 }
 
 pub fn run(tier: &str, replay: Option<&str>) -> i32 {
@@ -255,7 +311,8 @@ pub fn run(tier: &str, replay: Option<&str>) -> i32 {
             let seq: Vec<Rpc> = serde_json::from_value(c["sequence"].clone()).unwrap();
             let rt = tokio::runtime::Builder::new_multi_thread().worker_threads(1).enable_all().build().unwrap();
             let scratch = vcore::Scratch::new("c14replay");
-            check_sequence(&rt, &seq, &scratch, &mut st);
+            let limit = c["limit"].as_u64().unwrap_or(LIMIT as u64) as usize;
+            check_sequence_l(&rt, &seq, &scratch, &mut st, limit);
         } else {
             let setup: Vec<Rpc> = serde_json::from_value(c["setup"].clone()).unwrap();
             let conc: Vec<Rpc> = serde_json::from_value(c["concurrent"].clone()).unwrap();
@@ -279,7 +336,7 @@ pub fn run(tier: &str, replay: Option<&str>) -> i32 {
     let mut tot: BTreeMap<&str, u64> = BTreeMap::new();
     let mut states: BTreeSet<u64> = BTreeSet::new();
     for r in &res {
-        for k in ["sequences", "steps", "at_limit", "refused", "conc_programs", "conc_executions", "conc_points"] {
+        for k in ["sequences", "steps", "at_limit", "refused", "shapes", "conc_programs", "conc_executions", "conc_points"] {
             *tot.entry(k).or_insert(0) += r[k].as_u64().unwrap_or(0);
         }
         for s in r["states"].as_array().unwrap() {
@@ -294,11 +351,12 @@ pub fn run(tier: &str, replay: Option<&str>) -> i32 {
     ev.set("traces_validated_against_impl", tot["sequences"] + tot["conc_executions"]);
     ev.set("evaluations", tot["sequences"] + tot["conc_executions"]);
     ev.set("distinct_nontrivial", tot["at_limit"]);
-    ev.set("rule", format!("sequential: all {n}^{depth} sequences of one tenant (max_vectors = {LIMIT}, local ids 1-3) over Insert new / duplicate / NaN / wrong dimension, Delete present / absent, BatchDelete with duplicate ids and by filter, BulkInsert with a rejected item and across the limit, BulkLoadHnsw with an in-batch duplicate and over the limit, UpdateMetadata, FlushHotTier, Restart (persistent engine + the start-up recount); after EVERY step the server's counter (read through the child module) must equal the live documents carrying the tenant index, never exceed the limit, and a valid Insert of a new id is RESOURCE_EXHAUSTED only at the limit. concurrent: 25 programs of two (one of three) RPCs on the same id (insert||delete, overwrite||delete, insert||insert, delete||delete, insert||batch delete by ids/filter, inserts at the limit) from three setups, every schedule with <= 1 (quick) / 2 (thorough) preemptions under ksched; after join counter == live <= limit. non-trivial = steps executed with the tenant exactly at its limit"));
+    ev.set("rule", format!("sequential: all {n}^{depth} sequences of one tenant (max_vectors = {LIMIT}, local ids 1-3) over Insert new / duplicate / NaN / wrong dimension, Delete present / absent, BatchDelete with duplicate ids and by filter, BulkInsert with a rejected item and across the limit, BulkLoadHnsw with an in-batch duplicate and over the limit, UpdateMetadata, FlushHotTier, Restart (persistent engine + the start-up recount); after EVERY step the server's counter (read through the child module) must equal the live documents carrying the tenant index, never exceed the limit, and a valid Insert of a new id is RESOURCE_EXHAUSTED only at the limit. request shapes: every id list of length <= 3 over {{1,2,3,absent}} (all adjacent / non-adjacent repeat patterns) as BatchDelete(ids), BulkInsert and BulkLoadHnsw from each of the 8 populations of <= {SHAPE_LIMIT} documents (max_vectors = {SHAPE_LIMIT} there, so that a counter driven below the live count is not masked by saturation at zero), followed by a refill Insert 1,2,3,4, same per-step oracle. concurrent: 25 programs of two (one of three) RPCs on the same id (insert||delete, overwrite||delete, insert||insert, delete||delete, insert||batch delete by ids/filter, inserts at the limit) from three setups, every schedule with <= 1 (quick) / 2 (thorough) preemptions under ksched; after join counter == live <= limit. non-trivial = steps executed with the tenant exactly at its limit"));
     ev.set("samples", json!([alphabet()[9], alphabet()[11], {"concurrent": ["Insert(1)", "Delete(1)"], "setup": ["Insert(1)"]}]));
     ev.set("exhaustive", true);
     ev.set("sequences", tot["sequences"]);
     ev.set("inserts_refused_at_limit", tot["refused"]);
+    ev.set("request_shape_sequences", tot["shapes"]);
     ev.set("concurrent_programs", tot["conc_programs"]);
     ev.set("concurrent_executions", tot["conc_executions"]);
     ev.assume("Restart = TieredEngine::recover + a transcription of main()'s start-up recount (cold ids_for_metadata_filter(Exact __tenant_idx__) + hot-tier scan); main() itself is only reachable through the real binary");
